@@ -5,6 +5,7 @@ import (
 	"go/constant"
 	"go/token"
 	"go/types"
+	"regexp"
 	"strings"
 
 	"golang.org/x/tools/go/ssa"
@@ -20,7 +21,7 @@ func init() {
 			"R14.3 every write to the result happens under the result's mutex (the parser calls back concurrently); " +
 			"R14.4 window: the history is bounded by 3; below the bound the new kept count is appended, at the bound exactly the oldest element is dropped; the series value is the mean over the window, total-series is the last scrape's total; the proxy updates the estimate only after both scraper calls succeeded; " +
 			"R14.5 runtime info: sums are taken per dimension over the status map and the reported head series is bounded below by both the sum and Prometheus' own value (plus the units inference of C04 over pkg/sidecar, pkg/target, pkg/scrape, pkg/explore); " +
-			"R14.6 who may write ScrapeStatus.Series/TotalSeries: only the constructor and the scrape-result update (a failed scrape leaves the last total); R14.7 the scrape manager installs a fresh job table on every reload, no entry carried over from the previous one (a job reads its metric relabel rules from its own copy of the configuration).",
+			"R14.6 who may write ScrapeStatus.Series/TotalSeries: only the constructor and the scrape-result update (a failed scrape leaves the last total); R14.7 the scrape manager installs a fresh job table on every reload, no entry carried over from the previous one (a job reads its metric relabel rules from its own copy of the configuration); R14.8 an entry read out of one per-metric table is never installed in another one (aggregations own their entries; recorded counts are not added to).",
 		Assumptions: []string{"go/types and go/ssa are correct", "relabel.Process is pure (reviewed in the pinned prometheus module)"}})
 }
 
@@ -63,8 +64,10 @@ func runC14(p *engine.Prog, r *engine.Report) {
 	r.Min("R14.5-runtime-info", 2)
 	r.Min("R14.6-statistics-writers", 1)
 	r.Min("R14.7-jobs-rebuilt", 1)
+	r.Min("R14.8-recorded-statistics", 1)
 	checkStatisticsWriters(p, r, "R14.6-statistics-writers")
 	checkJobsRebuilt(p, r)
+	checkRecordedStatistics(p, r)
 	fi := p.Info(fnStat)
 	resT := fi.T(fnStat.Params[len(fnStat.Params)-1]).S
 
@@ -600,3 +603,67 @@ func comesFromField(v ssa.Value, f *types.Var, seen map[ssa.Value]bool) ssa.Valu
 	}
 	return nil
 }
+
+// checkRecordedStatistics is R14.8: the per-metric counts recorded for a scrape are not shared with anything that is
+// added to later. Whoever aggregates them (the samples API, a merge of results) installs entries of its own: an entry
+// read out of one per-metric table is never installed in another one.
+func checkRecordedStatistics(p *engine.Prog, r *engine.Report) {
+	var probs []string
+	n := 0
+	isMetricsMap := func(t types.Type) bool {
+		m, ok := t.Underlying().(*types.Map)
+		return ok && strings.HasSuffix(m.Elem().String(), "scrape.MetricSamplesInfo")
+	}
+	for _, fn := range p.Funcs {
+		for _, in := range allInstrs(fn) {
+			mu, ok := in.(*ssa.MapUpdate)
+			if !ok || !isMetricsMap(mu.Map.Type()) {
+				continue
+			}
+			n++
+			fi := p.Info(fn)
+			same := func(a ssa.Value) bool {
+				return a == mu.Map || stripVersions(fi.T(a).S) == stripVersions(fi.T(mu.Map).S)
+			}
+			if src := fromOtherMetricsMap(mu.Value, same, isMetricsMap, map[ssa.Value]bool{}); src != nil {
+				probs = append(probs, "an entry read out of another per-metric table is installed at "+p.Rel(mu.Pos())+" in "+engine.FuncName(fn)+": adding to it later changes the counts recorded for a scrape")
+			}
+		}
+	}
+	r.Check(len(probs) == 0 && n > 0, "R14.8-recorded-statistics", "entries installed in per-metric tables", fmt.Sprintf("%d installs of *MetricSamplesInfo", n), "every table gets entries of its own (fresh, or its own earlier entry)", strings.Join(probs, "; "))
+}
+
+func fromOtherMetricsMap(v ssa.Value, same func(ssa.Value) bool, isMetricsMap func(types.Type) bool, seen map[ssa.Value]bool) ssa.Value {
+	if seen[v] {
+		return nil
+	}
+	seen[v] = true
+	switch x := v.(type) {
+	case *ssa.Phi:
+		for _, e := range x.Edges {
+			if r := fromOtherMetricsMap(e, same, isMetricsMap, seen); r != nil {
+				return r
+			}
+		}
+	case *ssa.Extract:
+		switch t := x.Tuple.(type) {
+		case *ssa.Next:
+			if rg, ok := t.Iter.(*ssa.Range); ok && x.Index == 2 && isMetricsMap(rg.X.Type()) && !same(rg.X) {
+				return x
+			}
+		case *ssa.Lookup:
+			if x.Index == 0 && isMetricsMap(t.X.Type()) && !same(t.X) {
+				return x
+			}
+		}
+	case *ssa.Lookup:
+		if isMetricsMap(x.X.Type()) && !same(x.X) {
+			return x
+		}
+	}
+	return nil
+}
+
+var versionTag = regexp.MustCompile(`@[0-9a-f]{6}`)
+
+func stripVersions(t string) string { return versionTag.ReplaceAllString(t, "") }
